@@ -42,6 +42,36 @@ func (c *c14TPContext) AllocateRSChunkIDs(n int) (core.RSChunkID, core.Error) {
 	})
 }
 
+func (c *c14TPContext) AllocateTS(num int) ([]string, []core.TractserverID) {
+	a, ids := c.curatorTPContext.AllocateTS(num)
+	if len(ids) == num && len(a) == num {
+		// allocateTS decides the SET; the order in which it lists the servers comes from Go map iteration.
+		// Canonical order (by id), then the arrangement the case's generator chose.
+		idx := make([]int, num)
+		for i := range idx {
+			idx[i] = i
+		}
+		sort.Slice(idx, func(x, y int) bool { return ids[idx[x]] < ids[idx[y]] })
+		if c.round.Arrange != nil {
+			perm := c.round.Arrange(num)
+			idx2 := make([]int, num)
+			for i := range idx2 {
+				idx2[i] = idx[perm[i]]
+			}
+			idx = idx2
+		}
+		a2, ids2 := make([]string, num), make([]core.TractserverID, num)
+		for i, j := range idx {
+			a2[i], ids2[i] = a[j], ids[j]
+		}
+		a, ids = a2, ids2
+	}
+	c.round.mu.Lock()
+	c.round.Allocs = append(c.round.Allocs, append([]core.TractserverID(nil), ids...))
+	c.round.mu.Unlock()
+	return a, ids
+}
+
 func (c *c14TPContext) CommitRSChunk(id core.RSChunkID, cls core.StorageClass, hosts []core.TractserverID, data [][]state.EncodedTract) core.Error {
 	c.round.mu.Lock()
 	c.round.Commits = append(c.round.Commits, VerifC14Commit{Base: id, Class: cls, Hosts: append([]core.TractserverID(nil), hosts...), Data: data})
@@ -82,6 +112,8 @@ type VerifC14Round struct {
 	Chunks    []VerifC14Chunk // accepted layout (after packTracts), in the packer's order
 	Laid      bool
 	Commits   []VerifC14Commit
+	Arrange   func(n int) []int      // set by the harness: arrangement of the servers allocateTS picked
+	Allocs    [][]core.TractserverID // results of allocateTS, in call order (nil = failed)
 	Committed int
 	Done      bool
 }
